@@ -280,6 +280,9 @@ impl Profile {
                     out.push((Op::Static(StaticSpec { name: name.clone(), deps: vec![], data: d, time: 3 }), false));
                 }
                 out.push((s(name.clone(), &[], &[1], 3, vec![]), false));
+                // dynamically declared writers of the two resources the static types can name
+                out.push((s(name.clone(), &[], &[0], 3, vec![]), false));
+                out.push((s(name.clone(), &[], &[2], 3, vec![]), false));
                 out.push((Op::Tl(SysSpec { name: String::new(), reads: vec![], writes: vec![], time: 3, deps: vec![] }), false));
                 let st = |d: StaticData| Op::Static(StaticSpec { name: "x".into(), deps: vec![], data: d, time: 3 });
                 let inners: Vec<Vec<Op>> = vec![
@@ -612,7 +615,7 @@ impl<'a> Worker<'a> {
                 }
             }
             // C03 metamorphic: redundant barriers change nothing
-            if self.run.props.c03 {
+            if self.run.props.c03 && all_calls_ok(&obs) {
                 if let Some(red) = redundant_barrier_removed(ops) {
                     self.stats.barrier_metamorphic += 1;
                     match layout_of(&red, &idm) {
@@ -753,6 +756,18 @@ pub fn run_profile(run: &E1Run) -> E1Result {
 
 pub fn families(nmax: usize) -> Vec<(String, Vec<Op>)> {
     let mut out = Vec::new();
+    // sizes around the ranges of 8-bit counters, whatever `nmax` is: stages, groups of a stage, systems,
+    // thread-local systems, dependencies of one system
+    for n in [255usize, 256, 257, 300] {
+        let nm = |i: usize| format!("s{}", i);
+        let free = |name: &str| s(name.into(), &[], &[], 3, vec![]);
+        out.push((format!("big: {} stages; barrier; free system", n), (0..n).map(|i| s(nm(i), &[], &[0], 3, vec![])).chain([Op::Barrier, free("after")]).collect()));
+        out.push((format!("big: {} stages; free system", n), (0..n).map(|i| s(nm(i), &[], &[0], 3, vec![])).chain([free("after")]).collect()));
+        out.push((format!("big: one stage of {} groups; barrier; writer", n), (0..n).map(|i| s(nm(i), &[0], &[], 3, vec![])).chain([Op::Barrier, s("w".into(), &[], &[0], 3, vec![])]).collect()));
+        out.push((format!("big: dependency chain of {}", n), (0..n).map(|i| s(nm(i), &[], &[], 3, if i == 0 { vec![] } else { vec![nm(i - 1)] })).collect()));
+        out.push((format!("big: sink depending on {} systems", n), (0..n).map(|i| s(nm(i), &[], &[], 3, vec![])).chain([s("sink".into(), &[], &[], 3, (0..n).map(nm).collect())]).collect()));
+        out.push((format!("big: {} thread-local systems", n), (0..n).map(|_| Op::Tl(SysSpec { name: String::new(), reads: vec![], writes: vec![], time: 3, deps: vec![] })).chain([free("x")]).collect()));
+    }
     for n in 1..=nmax {
         let nm = |i: usize| format!("s{}", i);
         out.push((format!("writers({})", n), (0..n).map(|i| s(nm(i), &[], &[0], 3, vec![])).collect()));
